@@ -13,6 +13,10 @@ mod props;
 mod q;
 mod sha1;
 mod subj;
+mod wp;
+
+#[global_allocator]
+static GLOBAL: wp::ArenaAlloc = wp::ArenaAlloc;
 
 use fw::Tier;
 
